@@ -156,7 +156,10 @@ def compare(s, mask, refs, exp, obs, acc, empty=False):
             acc.violation("replacement-error-expected", case, obs, exp)
         else:
             name, source = obs[1], obs[2]
-            if not isinstance(name, str) or name.lower() != exp[1].lower():
+            # '$(NAME)' keeps its case ("with its case preserved"), so the error must carry NAME exactly as written;
+            # for '$name' / '${name}' the statement leaves open whether "that name" is the written or the lower-cased one
+            envonly = ["e", exp[1]] in [list(r) for r in refs] and ["d", exp[1].lower()] not in [list(r) for r in refs]
+            if not isinstance(name, str) or name.lower() != exp[1].lower() or (envonly and name != exp[1]):
                 acc.violation("replacement-error-wrong-name", case, obs, exp)
             elif source != s:
                 acc.violation("replacement-error-wrong-source", case, obs, exp)
@@ -178,6 +181,9 @@ def check_isname(s, acc, isname):
         acc.violation("isname", {"isname": s}, obs, exp)
 
 
+PROBE_LETTER = "\u00e9"      # LATIN SMALL LETTER E WITH ACUTE: a letter under the Unicode reading, not under the ASCII one
+
+
 def consistent_letter(c, acc, isname, substitute):
     """Whether a non-ASCII letter may be part of a name is left open by the statement ("letter"), but under either
     reading a character is a letter or it is not: it must be admitted at the start of a name exactly when it is
@@ -190,6 +196,17 @@ def consistent_letter(c, acc, isname, substitute):
         acc.violation("internal-error", {"isname": c}, core.exc_desc(e), "bool",
                       tags={"kind": "internal-error", "fn": "isname"})
         return
+    # ... and the reading is ONE reading: either every non-ASCII letter is a name character (Unicode reading) or none
+    # is (ASCII reading) - judged against a fixed probe letter, so a change that admits a handful of code points
+    # (say those that some case mapping sends to ASCII letters) is wrong under both readings
+    try:
+        probe = bool(isname(PROBE_LETTER))
+    except Exception:
+        probe = None
+    if probe is not None and start != probe:
+        acc.violation("letter-class-not-uniform", {"char": c, "fn": "isname", "probe": PROBE_LETTER},
+                      {"isname(c)": start, "isname(probe)": probe}, "equal",
+                      tags={"kind": "letter-class-not-uniform", "fn": "isname"})
     if start != inside:
         acc.violation("letter-class-inconsistent", {"char": c, "fn": "isname"},
                       {"isname(c)": start, "isname('a'+c)": inside}, "equal",
@@ -200,6 +217,11 @@ def consistent_letter(c, acc, isname, substitute):
     # c not a name start  <=>  '$'+c is a syntax error  <=>  '$a'+c is value(a) followed by c
     s1 = o1[0] == "syntax"
     s2 = o2 == ("ok", v + c)
+    p1 = observe(substitute, "$" + PROBE_LETTER, {"a": v, PROBE_LETTER: "X"})[0] == "syntax"
+    if s1 != p1:
+        acc.violation("letter-class-not-uniform", {"char": c, "fn": "substitute", "probe": PROBE_LETTER},
+                      {"'$'+c": o1, "'$'+probe is a syntax error": p1}, "c and the probe letter are both name "
+                      "characters or both not", tags={"kind": "letter-class-not-uniform", "fn": "substitute"})
     if s1 != s2:
         acc.violation("letter-class-inconsistent", {"char": c, "fn": "substitute"},
                       {"'$'+c": o1, "'$a'+c": o2}, "c is a name character in both positions or in neither",
